@@ -127,7 +127,8 @@ def ident_case(gi, p1, p2, v0, v1, v2, extra):
 NAMES_SETUP = '''
 import dataclasses
 from adaptix.conversion import get_converter
-CLASS_NAMES = ["A", "A2", "A\\u00b2", "A-B", "A B", "1A", "A'", 'A"', "A{x}", "A\\\\", "A\\n", "\\u00e9", "A.B", "A[0]", "A$", "def", "A\\u0660", "A\\u2460", "_", "A\\u00aa"]
+CLASS_NAMES = ["A", "A2", "A\\u00b2", "A-B", "A B", "1A", "A'", 'A"', "A{x}", "A\\\\", "A\\n", "\\u00e9", "A.B", "A[0]", "A$", "def", "A\\u0660", "A\\u2460", "_", "A\\u00aa",
+               "data", "ctx", "coercer", "constructor", "errors", "result", "self", "src", "dst", "convert", "model_identity"]
 NAMED = []
 NAME_ERRORS = []
 for _cn in CLASS_NAMES:
@@ -139,6 +140,32 @@ for _cn in CLASS_NAMES:
     except Exception as _e:
         NAME_ERRORS.append((_cn, repr(_e)[:200]))
 NN = max(1, len(NAMED))
+# converter stubs whose parameters are named like identifiers of the generated function
+from adaptix.conversion import impl_converter, link_function
+from adaptix import P
+@dataclasses.dataclass
+class HSrc:
+    a: int
+@dataclasses.dataclass
+class HDst:
+    a: int
+    coercer: int
+    data: int
+    ctx: int
+    constructor: int
+try:
+    @impl_converter
+    def conv_hostile(src: HSrc, coercer: int, data: int, ctx: int, constructor: int) -> HDst: ...
+    def data(src): return src.a + 1          # a linked function whose __name__ is a generated parameter name
+    @dataclasses.dataclass
+    class HDst2:
+        a: int
+        z: int
+    CONV_FN = get_converter(HSrc, HDst2, recipe=[link_function(data, P[HDst2].z)])
+except Exception as _e:
+    NAME_ERRORS.append(("conv_hostile", repr(_e)[:200]))
+def hostile_params(a, b, c, d, e):
+    return conv_hostile(HSrc(a), b, c, d, e) == HDst(a, b, c, d, e) and CONV_FN(HSrc(a)) == HDst2(a, a + 1)
 def named_case(ni, v):
     cn, M, ld, dp, conv = NAMED[pick(ni, NN)]
     o = outcome(ld, {"a": v})
@@ -275,6 +302,8 @@ def build(tier, seed):
           bounds="20 class names incl. quotes, braces, newline, superscript and other non-identifier word characters")
     mn.ob("names_case", "ni: int, v: int", "return named_case(ni, v)", pre=["0 <= ni < NN", "v >= -1"], timeout=tmo,
           family="model / function names with arbitrary characters", bounds="loader, dumper, converter of each named model; symbolic payload")
+    mn.ob("names_hostile_params", "a: int, b: int, c: int, d: int, e: int", "return hostile_params(a, b, c, d, e)", timeout=tmo,
+          family="converter stub parameters / linked functions named like generated identifiers", bounds="parameters coercer, data, ctx, constructor; function named data; symbolic ints")
     mk = Module("c19_kname").pre("from adaptix import Retort\n")
     mk.smt("sanitizer_alphabet", KNAME, timeout=300, family="K-name/1 (z3): sanitizer output alphabet",
            bounds="all code points <= 0x10FFFF; tables regenerated from the live BuiltinNameSanitizer and the running interpreter")
